@@ -203,6 +203,10 @@ func c13Run(c *core.Ctx, long bool) {
 		return
 	}
 	subs := storage.VerifSubsteps()
+	if c.R.Bool(0.25) {
+		CheckEmptyRun(c, model, run.Sets, out.States)
+		storage.VerifSubsteps()
+	}
 	if long {
 		c.Tag("long-run")
 		c.Max("max_substeps_in_one_run", float64(len(subs)))
